@@ -5,6 +5,7 @@ import abc
 
 from numpy.random import choice
 
+from jaqalpaq.error import JaqalError
 from jaqalpaq.core.result import ExecutionResult, Readout
 from jaqalpaq.core.result import ProbabilisticSubcircuit
 from jaqalpaq.core.algorithm.walkers import TraceVisitor, DiscoverSubcircuits
@@ -44,6 +45,9 @@ class AbstractBackend:
         """
 
         registers = circ.fundamental_registers()
+
+        if not registers:
+            raise JaqalError("Circuit has no register.")
 
         try:
             (register,) = registers
